@@ -402,6 +402,10 @@ class NumpyModel:
                 if op:
                     return I.opaque(f"{last} of an opaque value ({op[0].reason})", node)
                 return f(*args, **kwargs)
+        if root == "numpy" and last in _PURE_NUMPY:
+            r_ = self._concrete_numpy(last, args, kwargs)
+            if r_ is not _NOPE:
+                return r_
         parts_ = path.split(".")
         if parts_[0] == "builtins" and len(parts_) == 3 and parts_[1] == "str" and args and isinstance(args[0], str) and hasattr(str, last):
             # unbound string method, str.isdecimal(c): pure, evaluated on the concrete string
@@ -471,6 +475,57 @@ class NumpyModel:
         I.emit("extcall", (path, tuple(keyof(a) for a in args)), node)
         return I.opaque(f"external call {path}", node)
 
+    def _concrete_numpy(self, name, args, kwargs):
+        """A NumPy function that is not modelled, applied to arguments that are all CONSTANTS of the analysed program (integers, booleans,
+        rationals, arrays of those): constant folding with NumPy itself.  Anything symbolic: not applicable."""
+        from fractions import Fraction as _Fr
+
+        def conc(v):
+            if isinstance(v, (bool, np.bool_, int, str)) or v is None:
+                return v
+            if isinstance(v, float):
+                return v
+            if isinstance(v, IntSym):
+                raise ValueError
+            if isinstance(v, E):
+                if not v.is_const():
+                    raise ValueError
+                c = v.cval()
+                return int(c) if _Fr(c).denominator == 1 else float(c)
+            if isinstance(v, np.ndarray):
+                cells_ = [conc(x) for x in v.flat]
+                return np.array(cells_).reshape(v.shape) if cells_ else np.zeros(v.shape)
+            if isinstance(v, (list, tuple)):
+                return type(v)(conc(x) for x in v)
+            if isinstance(v, ExtRef) and v.path in ("builtins.bool", "builtins.int", "builtins.float", "numpy.float64", "numpy.int64", "numpy.bool_"):
+                return {"builtins.bool": bool, "builtins.int": int, "builtins.float": float, "numpy.float64": np.float64, "numpy.int64": np.int64, "numpy.bool_": np.bool_}[v.path]
+            if v in (bool, int, float):
+                return v
+            raise ValueError
+
+        def back(r):
+            if isinstance(r, np.ndarray):
+                out = np.empty(r.shape, dtype=object)
+                for i in np.ndindex(*r.shape):
+                    x = r[i]
+                    out[i] = bool(x) if isinstance(x, (bool, np.bool_)) else lift(int(x)) if isinstance(x, (int, np.integer)) else lift(float(x))
+                return out
+            if isinstance(r, tuple):
+                return tuple(back(x) for x in r)
+            if isinstance(r, (bool, np.bool_)):
+                return bool(r)
+            if isinstance(r, (int, np.integer)):
+                return int(r)
+            if isinstance(r, (float, np.floating)):
+                return lift(float(r))
+            raise ValueError
+        try:
+            a2 = [conc(a) for a in args]
+            k2 = {k: conc(v) for k, v in kwargs.items()}
+            return back(getattr(np, name)(*a2, **k2))
+        except Exception:
+            return _NOPE
+
     # --- builtins
     def b_range(self, node, *a):
         return range(*[int(x.cval()) if isinstance(x, E) else int(x) for x in a])
@@ -503,7 +558,18 @@ class NumpyModel:
             raise _raise("ValueError", node, "zip() arguments have different lengths")
         return list(zip(*ls))
 
+    def b_iter(self, node, x, *a):
+        from .values import GenList
+        return GenList(self.I.iterate(x, node))
+
     def b_next(self, node, it, *default):
+        from .values import GenList
+        if isinstance(it, GenList):
+            if it:
+                return it.pop(0)
+            if default:
+                return default[0]
+            raise _raise("StopIteration", node, "")
         if isinstance(it, list):
             raise _raise("TypeError", node, "'list' object is not an iterator")
         try:
@@ -1156,7 +1222,7 @@ class NumpyModel:
             axes = int(axes)
         return np.tensordot(a, b, axes=axes)
 
-    def np_einsum(self, spec, *ops):
+    def np_einsum(self, spec, *ops, optimize=None, **kw):
         ops = [self.np_asarray(o) for o in ops]
         ins, _, out = spec.replace(" ", "").partition("->")
         ins = ins.split(",")
@@ -1301,6 +1367,30 @@ class NumpyModel:
 
     def np_det(self, m):
         return alg.Fn("det", cells(self.np_asarray(m)))
+
+    def _tri_indices(self, n, k=0, m=None, upper=True):
+        n = int(n)
+        m = n if m is None else int(m)
+        k = int(cell(k).cval()) if not isinstance(k, int) else k
+        src = np.triu_indices(n, k, m) if upper else np.tril_indices(n, k, m)
+        return tuple(mkarr([lift(int(v)) for v in part]) for part in src)
+
+    def np_triu_indices(self, n, k=0, m=None):
+        return self._tri_indices(n, k, m, True)
+
+    def np_tril_indices(self, n, k=0, m=None):
+        return self._tri_indices(n, k, m, False)
+
+    def np_arange(self, *a, **kw):
+        vals = []
+        for x in a:
+            x = cell(x) if not isinstance(x, (int, IntSym)) else x
+            if isinstance(x, E) and x.is_int():
+                x = int(x.cval())
+            if not isinstance(x, (int, IntSym)):
+                return self.I.opaque("arange with non-integer / symbolic bounds")
+            vals.append(int(x))
+        return mkarr([lift(v) for v in range(*vals)]) if vals else self.I.opaque("arange()")
 
     def np_linspace(self, a, b, num=50, **kw):
         return self.I.opaque("linspace")
@@ -1485,6 +1575,14 @@ class NumpyModel:
     def x_scipy_spatial_transform_Rotation_random(self, node, *a, **kw):
         self.I.emit("rng", ("Rotation.random", keyof(a), tuple(sorted((k, keyof(v)) for k, v in kw.items()))), node)
         return Opaque("Rotation")
+
+
+_NOPE = object()
+# pure NumPy functions that may be folded on constant arguments when no model exists
+_PURE_NUMPY = {"flatnonzero", "nonzero", "fromiter", "cumsum", "cumprod", "diff", "unique", "bincount", "count_nonzero", "argwhere", "roll", "flip", "tile",
+               "repeat", "searchsorted", "digitize", "logical_xor", "mod", "remainder", "floor_divide", "isin", "in1d", "setdiff1d", "union1d", "intersect1d",
+               "argmax", "argmin", "argsort", "sort", "indices", "take", "delete", "insert", "array_split", "split", "ediff1d", "triu", "tril", "identity",
+               "linspace", "prod", "any", "all", "amax", "amin", "ptp", "where", "ravel_multi_index", "unravel_index", "ix_", "meshgrid", "atleast_1d", "atleast_2d"}
 
 
 _BUILTIN_NAMES = {
